@@ -152,6 +152,10 @@ func (g *gidx) boundAt(v ssa.Value, blk *ssa.BasicBlock) (int64, string) {
 	} else if p, ok := v.(*ssa.Parameter); ok {
 		base = g.entryBound(p)
 		src = fmt.Sprintf("all call sites pass >= %d", base)
+	} else if ex, ok := v.(*ssa.Extract); ok {
+		if b, why, ok := g.helperBound(ex, blk); ok {
+			base, src = b, why
+		}
 	}
 	facts := factsAt(blk, lenOf(v))
 	lb := lowerBound(facts, base)
@@ -163,6 +167,108 @@ func (g *gidx) boundAt(v ssa.Value, blk *ssa.BasicBlock) (int64, string) {
 		}
 	}
 	return lb, src
+}
+
+// helperBound: v is one result of a module helper that splits a line and
+// checks the column count (f, err := splitColumns(line, n)). On the helper's
+// success returns (error result nil) the vector's length is bounded below by
+// the producer fact and by the comparisons of len(vector) with a constant or
+// with a parameter that the call passes as a constant. The bound holds in blk
+// only if blk is reached with the helper's error found nil.
+func (g *gidx) helperBound(ex *ssa.Extract, blk *ssa.BasicBlock) (int64, string, bool) {
+	call, ok := ex.Tuple.(*ssa.Call)
+	if !ok {
+		return 0, "", false
+	}
+	callee := call.Call.StaticCallee()
+	if callee == nil || !inModule(callee) || callee.Blocks == nil {
+		return 0, "", false
+	}
+	res := callee.Signature.Results()
+	errIdx := res.Len() - 1
+	if errIdx < 1 || !isErrorType(res.At(errIdx).Type()) {
+		return 0, "", false
+	}
+	// the caller has seen err == nil
+	checked := false
+	for _, bf := range branchesAt(blk) {
+		for i, side := range []ssa.Value{bf.cond.X, bf.cond.Y} {
+			e, ok := side.(*ssa.Extract)
+			if !ok {
+				// the error may live in a named result whose address a deferred handler takes
+				if ld, isLoad := side.(*ssa.UnOp); isLoad && ld.Op == token.MUL {
+					if al, isAl := ld.X.(*ssa.Alloc); isAl {
+						for _, r := range *al.Referrers() {
+							if st, isSt := r.(*ssa.Store); isSt && st.Addr == ssa.Value(al) {
+								if se, isEx := st.Val.(*ssa.Extract); isEx && se.Tuple == ex.Tuple && se.Index == errIdx && st.Block().Dominates(ld.Block()) {
+									e, ok = se, true
+								}
+							}
+						}
+					}
+				}
+			}
+			if !ok || e.Tuple != ex.Tuple || e.Index != errIdx {
+				continue
+			}
+			other := bf.cond.Y
+			if i == 1 {
+				other = bf.cond.X
+			}
+			if isNilConst(other) && effectiveOp(bf, i == 0) == token.EQL {
+				checked = true
+			}
+		}
+	}
+	if !checked {
+		return 0, "", false
+	}
+	min := int64(-1)
+	for _, r := range returnsOf(callee) {
+		if len(r.Results) != res.Len() || !isNilConst(r.Results[errIdx]) {
+			continue
+		}
+		v := r.Results[ex.Index]
+		var lb int64
+		if _, m, ok := splitCall(v); ok {
+			lb = m
+		}
+		for _, bf := range branchesAt(r.Block()) {
+			lc := builtinCall(bf.cond.X, "len")
+			if lc == nil || lc.Call.Args[0] != v {
+				continue
+			}
+			var k int64
+			if c, ok := constIntVal(bf.cond.Y); ok {
+				k = c
+			} else if pi := paramIndex(callee, bf.cond.Y); pi >= 0 {
+				c, ok := constIntVal(argAt(&call.Call, callee, pi))
+				if !ok {
+					continue
+				}
+				k = c
+			} else {
+				continue
+			}
+			switch effectiveOp(bf, true) {
+			case token.GEQ:
+				if k > lb {
+					lb = k
+				}
+			case token.GTR:
+				if k+1 > lb {
+					lb = k + 1
+				}
+			}
+		}
+		if min < 0 || lb < min {
+			min = lb
+		}
+	}
+	if min < 0 {
+		return 0, "", false
+	}
+	return min, fmt.Sprintf("%s returns without error only with >= %d columns", callee.Name(), min), true
 }
 
 func (g *gidx) entryBound(p *ssa.Parameter) int64 {
@@ -372,6 +478,18 @@ func ruleGuardIdx(c *Ctx, rule string, shorts ...string) {
 		sort.Slice(calls, func(i, j int) bool { return calls[i].Pos() < calls[j].Pos() })
 		for _, call := range calls {
 			g.checkVector(f, call)
+		}
+		// vectors handed back by a module helper together with an error
+		for _, b := range f.Blocks {
+			for _, ins := range b.Instrs {
+				if ex, ok := ins.(*ssa.Extract); ok && isVecType(ex.Type()) {
+					if call, ok := ex.Tuple.(*ssa.Call); ok {
+						if callee := call.Call.StaticCallee(); callee != nil && inModule(callee) && g.pkgs[callee.Pkg] {
+							g.checkVector(f, ex)
+						}
+					}
+				}
+			}
 		}
 	}
 	if g.dynamic > 0 {
